@@ -179,7 +179,15 @@ async def execute(gen, ops, w: SockWorld, run: Run, counters=None):
         log.add("API.call", name="send", serial=rec["serial"])
         H.HDR_SINK[0] = rec
         try:
-            policy = psock.RetryPolicy(max_retries=pol[0], max_lifetime=pol[1])
+            # one policy object per (retries, lifetime) and script, as an application that
+            # keeps its policies in constants would have; "mutate_policy" changes it later
+            cache = run.__dict__.setdefault("policies", {})
+            policy = cache.get(tuple(pol))
+            if policy is None:
+                policy = cache[tuple(pol)] = psock.RetryPolicy(max_retries=pol[0],
+                                                               max_lifetime=pol[1])
+            else:
+                policy.max_retries, policy.max_lifetime = pol[0], pol[1]
             if rec.get("mode") == "hdr":
                 # the other public entry point: caller-supplied header
                 reg = H.registry(gen)
@@ -284,6 +292,14 @@ async def execute(gen, ops, w: SockWorld, run: Run, counters=None):
                 run.sends.append(rec)
                 return do_send(msg, rec, pol)
             (w.on_connect_hooks if o == "on_connect_send" else w.on_disconnect_hooks).append(hook)
+        elif o == "mutate_policy":
+            # the application changes a policy object it has already sent messages with
+            pol = POLICIES[op[1]] if isinstance(op[1], str) else tuple(op[1])
+            obj = run.__dict__.setdefault("policies", {}).get(tuple(pol))
+            if obj is not None:
+                obj.max_lifetime = op[2]
+                if len(op) > 3:
+                    obj.max_retries = op[3]
         elif o == "odd_subs":
             w.add_odd_subscribers()
         elif o == "sync_raise":
